@@ -11,7 +11,8 @@
 (*       way an implementation does: arithmetically, not by re-counting),  *)
 (*   (b) `Post`   -- the RELATIONAL postcondition of the property, stated  *)
 (*       on the flattened plain sequence and on what the accessors report  *)
-(*       (`Obs` records: chunk list, len, remaining, chunk, is_empty).     *)
+(*       (`Obs` records: chunk list, len, remaining, chunk, is_empty,      *)
+(*       has_remaining, chunks_vectored, the bytes read through Buf).      *)
 (*       `Post` is what spec/ChainTrace.tla evaluates on values observed   *)
 (*       on the real code.                                                 *)
 (* The state machine below applies every operation with arguments at,      *)
@@ -23,7 +24,18 @@
 (*                                                                         *)
 (* Operations are records [op, i, x]: `i` is the numeric argument (chunk   *)
 (* index for insert/remove, byte offset/length for split_to, split_off,    *)
-(* truncate, advance), `x` the segment for push/insert.                    *)
+(* truncate, advance, copy_to_bytes, copy_to_slice), `x` the segment for   *)
+(* push/insert.                                                            *)
+(*                                                                         *)
+(* The CONSUMING methods every `bytes::Buf` gets from the trait (whether   *)
+(* the implementation keeps the provided method or overrides it) are       *)
+(* operations like the others: copy_to_bytes(n), copy_to_slice(n bytes),   *)
+(* get_u8(), get_u16().  On the plain byte sequence each removes the first *)
+(* n (1, 2) bytes and returns exactly those bytes (get_u16: big-endian);   *)
+(* with fewer bytes remaining the Buf contract panics.  The OBSERVING      *)
+(* methods remaining(), chunk(), has_remaining(), chunks_vectored() are    *)
+(* part of every observation (`Obs`), i.e. they are evaluated before and   *)
+(* after every operation and on every returned chain.                      *)
 (***************************************************************************)
 EXTENDS Integers, Sequences, FiniteSets, TLC, Json
 
@@ -32,6 +44,7 @@ CONSTANTS MaxChunks,   \* initial chains have 0 .. MaxChunks chunks
           Segs,        \* segments offered to push / insert (contains the empty segment)
           Depth,       \* number of operations per behaviour
           Mode,        \* "fixed": Apply is the correct behaviour; "pinned": Apply mimics pbuf.rs of the pinned tree
+          StopAtOOR,   \* TRUE: a behaviour ends with its first out-of-range operation (see `More`)
           CowAlphabet, \* bytes of the strings of the CowBytes cases
           CowMaxLen    \* maximal length of those strings
 
@@ -91,17 +104,34 @@ RemoveAt(c, i) == Prefix(c, i) \o Suffix(c, i + 1)               \* removes chun
 
 Op(op, i, x) == [op |-> op, i |-> i, x |-> x]
 
-OpNames == {"push", "insert", "pop", "remove", "split_to", "split_off", "truncate", "advance", "clear"}
+OpNames == {"push", "insert", "pop", "remove", "split_to", "split_off", "truncate", "advance", "clear",
+            "copy_to_bytes", "copy_to_slice", "get_u8", "get_u16"}
+
+(* the consuming methods of bytes::Buf: they take bytes off the front and hand them out *)
+CopyOps == {"copy_to_bytes", "copy_to_slice"}            \* the number of bytes is the argument `i`
+GetOps == {"get_u8", "get_u16"}                          \* fixed width, no argument
+GetWidth(op) == IF op = "get_u8" THEN 1 ELSE 2
+(* number of bytes a consuming operation takes *)
+Width(o) == IF o.op \in GetOps THEN GetWidth(o.op) ELSE o.i
+(* big-endian value of a byte string (what get_u8 / get_u16 return) *)
+RECURSIVE BE(_)
+BE(b) == IF b = <<>> THEN 0 ELSE BE(Prefix(b, Len(b) - 1)) * 256 + b[Len(b)]
+
+(* Buf::chunks_vectored is observed with a destination of IovCap entries (and with an empty one) *)
+IovCap == 2
 
 (* what the accessors of a chain value report *)
 ObsOf(c, n) == [ch |-> c, len |-> n, rem |-> n,
                 chunk |-> IF c = <<>> THEN <<>> ELSE c[1],
-                empty |-> (n = 0), drain |-> Flatten(c), accp |-> <<>>]
+                empty |-> (n = 0), has |-> (n > 0),
+                iov |-> Prefix(c, IF Len(c) < IovCap THEN Len(c) ELSE IovCap), iov0 |-> 0,
+                drain |-> Flatten(c), accp |-> <<>>]
 
 NoObs == ObsOf(<<>>, 0)
 Unit == [k |-> "unit", b |-> <<>>]
 RNone == [k |-> "none", b |-> <<>>]
 RBytes(b) == [k |-> "bytes", b |-> b]
+RInt(v) == [k |-> "int", b |-> <<>>, v |-> v]
 RChain(c, n) == [k |-> "chain", b |-> <<>>, c |-> ObsOf(c, n)]
 
 (* Is the argument of the operation in range for a value with chunk list c (n chunks, L bytes)? *)
@@ -114,6 +144,7 @@ InRangeFor(o, c) ==
        [] o.op = "remove" -> o.i < n
        [] o.op \in {"split_to", "split_off", "truncate", "advance"} -> o.i <= L
        [] o.op = "clear"  -> TRUE
+       [] o.op \in CopyOps \cup GetOps -> Width(o) <= L      \* Buf: panics when fewer bytes remain
        [] OTHER -> FALSE
 
 (* Apply(o, c, n): c the chunk list, n the cached length.  Result [c, n, ret].
@@ -125,6 +156,8 @@ ApplyFixed(o, c, n) ==
         ret |-> CASE o.op = "pop" -> RNone
                   [] o.op = "remove" -> RBytes(<<>>)
                   [] o.op \in {"split_to", "split_off"} -> RChain(<<>>, 0)
+                  [] o.op \in CopyOps -> RBytes(<<>>)
+                  [] o.op \in GetOps -> RInt(0)
                   [] OTHER -> Unit]
   ELSE CASE o.op = "push"      -> [c |-> Append(c, o.x), n |-> n + Len(o.x), ret |-> Unit]
          [] o.op = "insert"    -> [c |-> InsertAt(c, o.i, o.x), n |-> n + Len(o.x), ret |-> Unit]
@@ -135,6 +168,9 @@ ApplyFixed(o, c, n) ==
          [] o.op = "truncate"  -> [c |-> Take(c, o.i), n |-> o.i, ret |-> Unit]
          [] o.op = "advance"   -> [c |-> Drop(c, o.i), n |-> n - o.i, ret |-> Unit]
          [] o.op = "clear"     -> [c |-> <<>>, n |-> 0, ret |-> Unit]
+         [] o.op \in CopyOps   -> [c |-> Drop(c, o.i), n |-> n - o.i, ret |-> RBytes(Flatten(Take(c, o.i)))]
+         [] o.op \in GetOps    -> LET w == GetWidth(o.op)
+                                  IN [c |-> Drop(c, w), n |-> n - w, ret |-> RInt(BE(Flatten(Take(c, w))))]
 
 (* The pinned tree (cow-bytes/src/pbuf.rs before any repair), as read from the source:
    push/insert store an empty segment as a chunk; truncate stores its argument in the cached length
@@ -151,10 +187,23 @@ Apply(o, c, n) == IF Mode = "pinned" THEN ApplyPinned(o, c, n) ELSE ApplyFixed(o
 (* ---------------------------------------------------------------------- *)
 (* the property: relational postcondition on OBSERVED values              *)
 (* ---------------------------------------------------------------------- *)
-(* An observation is a record [ch, len, rem, chunk, empty, drain, accp]: the chunk list
-   (AsRef<[CowBytes]>), len(), Buf::remaining(), Buf::chunk(), is_empty(), the bytes a consumer reads
-   through Buf (chunk() / advance(chunk().len()) on a clone until has_remaining() is false), and the
-   list of accessors that panicked ("drain_stuck": the reading loop made no progress).            *)
+(* An observation is a record [ch, len, rem, chunk, empty, has, iov, iov0, drain, accp]: the chunk list
+   (AsRef<[CowBytes]>), len(), Buf::remaining(), Buf::chunk(), is_empty(), Buf::has_remaining(), the
+   slices Buf::chunks_vectored() filled into a destination of IovCap entries, the number it reports for
+   an empty destination, the bytes a consumer reads through Buf (chunk() / advance(chunk().len()) on a
+   clone until has_remaining() is false), and the list of accessors that panicked ("drain_stuck": the
+   reading loop made no progress; "chunks_vectored_count": it reported more slices than the destination has). *)
+
+(* Buf::chunks_vectored on a value whose remaining bytes are F: at most `cap` slices are filled, together
+   they are a prefix of the remaining bytes, the first one is not empty while bytes remain, and nothing
+   is filled into an empty destination.  (How many of the remaining slices are filled is left open: the
+   provided method of the trait fills one.)                                                        *)
+IovOk(iov, iov0, cap, F) ==
+  /\ Len(iov) <= cap
+  /\ LET G == Flatten(iov) IN Len(G) <= Len(F) /\ G = Prefix(F, Len(G))
+  /\ F # <<>> => (iov # <<>> /\ iov[1] # <<>>)
+  /\ iov0 = 0
+
 WF(o) ==
   /\ o.accp = <<>>                                   \* no accessor of a live value panics
   /\ NoEmpty(o.ch)                                   \* no chunk is empty
@@ -163,6 +212,8 @@ WF(o) ==
   /\ o.chunk = (IF o.ch = <<>> THEN <<>> ELSE o.ch[1])
   /\ (o.chunk = <<>>) <=> (o.len = 0)                \* Buf contract: chunk() is empty iff nothing remains
   /\ o.empty = (o.len = 0)
+  /\ o.has = (o.len > 0)                             \* Buf::has_remaining
+  /\ IovOk(o.iov, o.iov0, IovCap, Flatten(o.ch))     \* Buf::chunks_vectored
   /\ o.drain = Flatten(o.ch)                         \* the remaining bytes, as read through Buf
 
 InRange(o, b) == InRangeFor(o, b.ch)
@@ -182,6 +233,7 @@ PlainAfter(o, b) ==
        [] o.op = "truncate"  -> Prefix(F, o.i)
        [] o.op = "advance"   -> Suffix(F, o.i)
        [] o.op = "clear"     -> <<>>
+       [] o.op \in CopyOps \cup GetOps -> Suffix(F, Width(o))   \* the first bytes are taken off
 
 RetOk(o, b, r) ==
   LET F == Flatten(b.ch) IN
@@ -190,6 +242,8 @@ RetOk(o, b, r) ==
     [] o.op = "remove"    -> r.k = "bytes" /\ r.b = b.ch[o.i + 1]
     [] o.op = "split_to"  -> r.k = "chain" /\ WF(r.c) /\ Flatten(r.c.ch) = Prefix(F, o.i)
     [] o.op = "split_off" -> r.k = "chain" /\ WF(r.c) /\ Flatten(r.c.ch) = Suffix(F, o.i)
+    [] o.op \in CopyOps   -> r.k = "bytes" /\ r.b = Prefix(F, o.i)         \* exactly the bytes taken off
+    [] o.op \in GetOps    -> r.k = "int" /\ r.v = BE(Prefix(F, GetWidth(o.op)))
 
 (* the value returned by a call with an out-of-range argument that did not panic: no malformed value *)
 RetNeutral(o, r) ==
@@ -197,6 +251,8 @@ RetNeutral(o, r) ==
     [] o.op = "pop"       -> r.k = "none"
     [] o.op = "remove"    -> r.k = "bytes"
     [] o.op \in {"split_to", "split_off"} -> r.k = "chain" /\ WF(r.c)
+    [] o.op \in CopyOps   -> r.k = "bytes"
+    [] o.op \in GetOps    -> r.k = "int"
 
 (* b, a: observation before / after; r: returned value; out: "ok" | "panic" *)
 Post(o, b, a, r, out) ==
@@ -220,18 +276,26 @@ SigOf(o, b) ==
 (* ---------------------------------------------------------------------- *)
 (* CowBytes: one value against the plain byte string X                    *)
 (* ---------------------------------------------------------------------- *)
-(* operations at position p of a CowBytes holding X: what remains in the value, what is returned *)
-CowInRange(op, X, p) == op = "read" \/ p <= Len(X)
+(* operations at position p of a CowBytes holding X: what remains in the value, what is returned.
+   CowBytes is a bytes::Buf too: copy_to_bytes(p), copy_to_slice(p bytes), get_u8(), get_u16() take the
+   first p (1, 2) bytes off and return them (the get operations return the big-endian value, logged as a
+   one-element list; their `p` is 0).                                                            *)
+CowPosOps == {"split_to", "split_off", "truncate", "advance", "read", "copy_to_bytes", "copy_to_slice"}
+CowWidth(op, p) == IF op \in GetOps THEN GetWidth(op) ELSE p
+CowInRange(op, X, p) == op = "read" \/ CowWidth(op, p) <= Len(X)
 CowSelf(op, X, p) ==
   CASE op = "split_to"  -> Suffix(X, p)
     [] op = "split_off" -> Prefix(X, p)
     [] op = "truncate"  -> Prefix(X, p)
     [] op = "advance"   -> Suffix(X, p)
     [] op = "read"      -> Suffix(X, IF p <= Len(X) THEN p ELSE Len(X))
+    [] op \in CopyOps \cup GetOps -> Suffix(X, CowWidth(op, p))
 CowRet(op, X, p) ==
   CASE op = "split_to"  -> Prefix(X, p)
     [] op = "split_off" -> Suffix(X, p)
     [] op = "read"      -> Prefix(X, IF p <= Len(X) THEN p ELSE Len(X))
+    [] op \in CopyOps   -> Prefix(X, p)
+    [] op \in GetOps    -> <<BE(Prefix(X, GetWidth(op)))>>
     [] OTHER -> <<>>
 (* std::io::Read for CowBytes is not part of the statement of C20 (it names accessors, comparisons, hash
    and the positional operations).  It is observed all the same: the bytes handed out must be the
@@ -279,6 +343,7 @@ OpsPop(cc)    == {Op("pop", 0, <<>>)}
 OpsClear(cc)  == {Op("clear", 0, <<>>)}
 OpsRemove(cc) == {Op("remove", i, <<>>) : i \in 0 .. Len(cc)}
 OpsBytes(nm, cc) == {Op(nm, at, <<>>) : at \in 0 .. SumLen(cc) + 1}
+OpsGet(cc)    == {Op(nm, 0, <<>>) : nm \in GetOps}
 
 NoLast == [o |-> Op("none", 0, <<>>), b |-> <<>>, bn |-> 0, ret |-> Unit]
 
@@ -296,7 +361,13 @@ Step(o) ==
   /\ last' = [o |-> o, b |-> c, bn |-> n, ret |-> r.ret]
   /\ UNCHANGED init
 
-More == Len(hist) < Depth
+(* A behaviour has at most Depth operations.  With StopAtOOR it also ends with its first out-of-range
+   operation: on the real code that call panics (the replay of the sequence stops there) or leaves the
+   value exactly unchanged (then the continuation repeats what the sequence without that call shows).
+   The configurations with StopAtOOR = FALSE go on after such a call.                              *)
+LastOutOfRange == last.o.op # "none" /\ ~InRangeFor(last.o, last.b)
+Ended == Len(hist) = Depth \/ (StopAtOOR /\ LastOutOfRange)
+More == ~Ended
 
 APush     == More /\ \E o \in OpsPush(c) : Step(o)
 AInsert   == More /\ \E o \in OpsInsert(c) : Step(o)
@@ -307,8 +378,12 @@ ASplitOff == More /\ \E o \in OpsBytes("split_off", c) : Step(o)
 ATruncate == More /\ \E o \in OpsBytes("truncate", c) : Step(o)
 AAdvance  == More /\ \E o \in OpsBytes("advance", c) : Step(o)
 AClear    == More /\ \E o \in OpsClear(c) : Step(o)
+ACopyToBytes == More /\ \E o \in OpsBytes("copy_to_bytes", c) : Step(o)
+ACopyToSlice == More /\ \E o \in OpsBytes("copy_to_slice", c) : Step(o)
+AGet      == More /\ \E o \in OpsGet(c) : Step(o)
 
-Next == APush \/ AInsert \/ APop \/ ARemove \/ ASplitTo \/ ASplitOff \/ ATruncate \/ AAdvance \/ AClear
+Next == \/ APush \/ AInsert \/ APop \/ ARemove \/ ASplitTo \/ ASplitOff \/ ATruncate \/ AAdvance \/ AClear
+        \/ ACopyToBytes \/ ACopyToSlice \/ AGet
 
 Spec == Init /\ [][Next]_vars
 
@@ -327,9 +402,9 @@ PanicOnlyOutOfRange ==
   last.o.op # "none" =>
      (Post(last.o, ObsOf(last.b, last.bn), NoObs, Unit, "panic") <=> ~InRangeFor(last.o, last.b))
 
-(* Emission of the cases.  One JSON line per maximal behaviour prefix (all behaviours have exactly
-   Depth operations, every shorter prefix is a prefix of one of them).                           *)
-Emit == Len(hist) = Depth => PrintT(<<"SEQ", ToJson([init |-> init, ops |-> hist])>>)
+(* Emission of the cases.  One JSON line per maximal behaviour (every shorter prefix is a prefix of
+   one of them).                                                                                  *)
+Emit == Ended => PrintT(<<"SEQ", ToJson([init |-> init, ops |-> hist])>>)
 
 (* strings of the CowBytes cases *)
 CowStrings == Strings(CowMaxLen)
